@@ -74,7 +74,7 @@ Qed.
 
    The full statement (arrays, dictionaries, "n g R"; the container stack and the two-slot integer buffer of
    parse_remainder) is
-     Theorem parse_complete : forall inp toks o toks', bytes_ok inp -> lex_ok inp = true ->
+     parse_complete (full statement) : forall inp toks o toks', bytes_ok inp -> lex_ok inp = true ->
        lex_spec inp = Some toks -> syn_obj (S (length toks)) toks = Some (o, toks') -> obj_in_range o ->
        exists r, parse_object false false t inp pos = r /\ pr_warn r = [] /\ lex_spec (pr_rest r) = Some toks' /\
                  exists o', pr_obj r = Some o' /\ equivalent (mo_abs o') o.
